@@ -158,7 +158,9 @@ class CVRP(Spec):
     sources = ("gen", "lat", "flt")
     envcls = "CVRPEnv"
 
-    VC = [1.0, 1.0, 1.0, 2.0, 1.5]  # vehicle_capacity option of the generator (capacity in normalised demand units)
+    # vehicle_capacity option of the generator (capacity in normalised demand units); below 1 the demands have to fit:
+    # generated data gets capacity >= 20 (demands <= 10/20), hand-built demands are multiplied by the option
+    VC = [1.0, 1.0, 1.0, 2.0, 1.5, 0.5]
 
     def cfg(self, tier):
         return st.tuples(self.sizes(tier), st.sampled_from([None, None, 10.0, 15.0, 20.0, 40.0]),
@@ -168,7 +170,21 @@ class CVRP(Spec):
         p = dict(num_loc=cfg["n"], vehicle_capacity=cfg.get("vc", 1.0))
         if cfg.get("capacity"):
             p["capacity"] = cfg["capacity"]
+        if cfg.get("vc", 1.0) < 1.0:
+            p["capacity"] = max(float(cfg.get("capacity") or 0.0), 20.0)
         return p
+
+    def fit_demand(self, cfg, td):
+        """Hand-built demands are drawn in [1/8, 1]; a vehicle smaller than 1 gets them scaled (still dyadic)."""
+        vc = cfg.get("vc", 1.0)
+        if vc < 1.0:
+            td["demand"] = td["demand"] * vc
+        return td
+
+    def instance(self, case):
+        if case["src"] in ("lat", "flt", "tgt"):
+            return self.fit_demand(case["cfg"], self.from_lattice(case["cfg"], case["lat"]))
+        return super().instance(case)
 
     def build(self, cfg):
         import rl4co.envs as E
@@ -301,7 +317,7 @@ class CVRPTW(CVRP):
 
     def instance(self, case):
         if case["src"] in ("lat", "flt", "tgt"):
-            td = self.from_lattice(case["cfg"], case["lat"])
+            td = self.fit_demand(case["cfg"], self.from_lattice(case["cfg"], case["lat"]))
             if case["cfg"].get("scale"):
                 # hand-built instance in SCALED units, the format of CVRPTWGenerator(scale=True): coordinates, time windows
                 # and service durations divided by the depot's closing time (one per batch), so that everything lies in
@@ -338,6 +354,11 @@ class SVRP(Spec):
         @st.composite
         def row(draw):
             techs = sorted(draw(st.lists(st.integers(1, 10), min_size=T, max_size=T)))
+            if T >= 3 and draw(st.integers(0, 2)) == 0:
+                # technicians in another order than the generator's ascending one (a hand-built crew; nothing in the
+                # env asks for sorted skills): only the most skilled one stays last, so that every customer can still
+                # be served by the time the last technician leaves
+                techs = list(draw(st.permutations(techs[:-1]))) + techs[-1:]
             skills = draw(st.lists(st.integers(0, max(techs)), min_size=n, max_size=n))
             return draw(coords(1))[0], draw(coords(n)), [[float(t)] for t in techs], [[float(s)] for s in skills]
 
@@ -542,7 +563,9 @@ class MTVRP(Spec):
             lh = [0.0] + [0.0 if b else d for d, b in zip(dem, isb)]
             bh = [0.0] + [d if b else 0.0 for d, b in zip(dem, isb)]
             d0 = [math.hypot(p[0] - locs[0][0], p[1] - locs[0][1]) for p in locs]
-            sp = cfg.get("speed", 1.0)
+            # the speed is a per-instance field of the state ([B, 1], like the capacity): rows of a hand-built batch
+            # may carry different speeds (instance files / generator subclasses overriding generate_speed)
+            sp = draw(st.sampled_from([cfg.get("speed", 1.0)] * 3 + [0.5, 1.0, 2.0]))
             if f["T"]:
                 tws, sts = [], [0.0]
                 mt = 8.0
@@ -566,13 +589,13 @@ class MTVRP(Spec):
             else:
                 tws, sts = [[0.0, 1e30]] * (n + 1), [0.0] * (n + 1)
             lim = max(draw(st.integers(16, 40)) / 8.0, 2 * max(d0) + 0.125) if f["L"] else 1e30
-            return locs, lh, bh, tws, sts, lim, f["O"], cap
+            return locs, lh, bh, tws, sts, lim, f["O"], cap, sp
 
         def pack(rows):
             out = {"locs": [r[0] for r in rows], "demand_linehaul": [r[1] for r in rows],
                    "demand_backhaul": [r[2] for r in rows], "time_windows": [r[3] for r in rows],
                    "service_time": [r[4] for r in rows], "distance_limit": [[r[5]] for r in rows],
-                   "open_route": [[r[6]] for r in rows]}
+                   "open_route": [[r[6]] for r in rows], "speed": [[r[8]] for r in rows]}
             if raw:
                 out["vehicle_capacity"] = [[r[7]] for r in rows]
             return out
@@ -592,7 +615,7 @@ class MTVRP(Spec):
             "open_route": torch.tensor(lat["open_route"], dtype=torch.bool),
             "vehicle_capacity": t32(lat["vehicle_capacity"]) if "vehicle_capacity" in lat else torch.ones(B, 1),
             "capacity_original": t32(lat["vehicle_capacity"]) if "vehicle_capacity" in lat else torch.full((B, 1), 8.0),
-            "speed": torch.full((B, 1), float(cfg.get("speed", 1.0))),
+            "speed": t32(lat["speed"]) if "speed" in lat else torch.full((B, 1), float(cfg.get("speed", 1.0))),
         }, batch_size=[B])
 
     def bound(self, cfg, r):
